@@ -33,6 +33,9 @@ CHECKS = {
  'C14': dict(level='exploration', tech='runtime monitor: per-mode tuple monitors (Laplace identity, complex-step / finite-difference derivative consistency, mode-sum, limits) plus an exact-physics anchor (closed-form degree-2 potential of a Keplerian perturber, analytic time mean, FFT spectral lines per mode)',
              text='Randomised exploration over colatitude, longitude, time, n, spin, e<=0.4, obliquity, both static flags and all 8 implementations with every mode; the exact oracle decides which variant is at fault and checks every retained coefficient via per-mode spectral lines at two eccentricities.',
              note='Limits are tested to the order the simpler variant retains (the medium-obliquity variants are a joint third-order series in e and I). Truncation budgets are listed in the evidence assumptions. One open known finding (static term replicated per mode).', ref='4/C14'),
+ 'C15': dict(level='exploration', tech='runtime monitor: wrapper on calculate_strain_stress / calculate_volumetric_heating asserting the constitutive law, the three radial-traction identities and signed dissipation at every grid point',
+             text='Randomised exploration over complex radial functions, radii, complex moduli, l=2..4, real TidalPy potential modes and synthetic degree-l harmonics with analytic derivatives, on random 4-D grids; compiled and interpreted executions.',
+             note='Input potentials are pre-checked against the degree-l Laplace identity; the signed dissipation is recomputed from the returned tensors because the library applies abs().', ref='4/C15'),
 }
 NA = []
 def main():
